@@ -443,6 +443,33 @@ def run(prop, tier):
         records.append(dict(id=rid, kind="same", a=dg(byname0), b=dg(byname0)))
         index[rid] = dict(label=lab("binary result save / load: flows requested by parameter name"))
         rid += 1
+    # ================= populations with arbitrary code names (here the ones a spreadsheet reader likes to take for missing values): the
+    # calibration written for such a parameter set is read back
+    try:
+        import atomica
+
+        Fna = at.ProjectFramework("%s/sir_framework.xlsx" % atomica.LIBRARY_PATH)
+        Dna = at.ProjectData.new(Fna, np.arange(2000, 2003), sc.odict([("NA", "Pop NA"), ("null", "Pop null")]), sc.odict([("mig", "Migration")]))
+        for nm_, tdve in Dna.tdve.items():
+            for pop_, ts in tdve.ts.items():
+                if not ts.has_data:
+                    ts.assumption = 100.0 if nm_ in ("sus", "ch_all") else (10.0 if nm_ == "inf" else 0.1)
+        for tdc in Dna.transfers:
+            for k_ in (("NA", "null"), ("null", "NA")):
+                tdc.ts[k_] = at.TimeSeries(assumption=0.01, units="probability")
+        Dna = at.ProjectData.from_spreadsheet(Dna.to_spreadsheet(), Fna)
+        psa = at.ParameterSet(Fna, Dna)
+        psa.transfers["mig"]["NA"].y_factor["null"] = 3.0
+        first_ = [n_ for n_ in psa.pars.keys() if "NA" in psa.pars[n_].y_factor][0]
+        psa.pars[first_].y_factor["NA"] = 1.75
+        psa.pars[first_].meta_y_factor = 0.5
+        psb = at.ParameterSet(Fna, Dna)
+        psb.load_calibration(psa.calibration_spreadsheet())
+        records.append(dict(id=rid, kind="same", a=dg(parset_content(psa)), b=dg(parset_content(psb))))
+        index[rid] = dict(label=dict(model="sir with populations 'NA' and 'null'", what="calibration round trip (population names that read like missing values)"))
+        rid += 1
+    except Exception as ex:
+        V.violation("C16 calibration round trip with populations 'NA' / 'null' raised %s" % type(ex).__name__, dict(error=str(ex)[:300]))
     # ================= transfers and interactions of a library databook whose tables carry no uncertainty column: an uncertainty entered on the
     # object is content like any other (it is written and read back)
     try:
